@@ -1,8 +1,10 @@
 import Litep2pVerif.Proofs.Notif.Env
+import Litep2pVerif.Proofs.Notif.Inv
 /-!
 The consistency invariant of the restricted transition system of C11: the per-peer slot determines the
 connected flag, the pending and requested substream ids and the handshake entries; the validation future of
-the substream under validation exists; while a connection task is closing the peer has no negotiation; no
+the substream under validation exists; while a shutdown notice of a connection task is due the peer has no
+negotiation (a task that was merely signalled and not polled yet puts no constraint on the slot); no
 `bug` output was produced; and the two ledgers kept on the user channel (request/answer, acceptance/opened)
 are in the state the slot says.
 -/
@@ -33,6 +35,11 @@ theorem pendOf_mem {slot : Slot} {l : Bool} {x : Sid} (h : x ∈ pendOf slot l) 
     · rw [hs] at h; simp at h
     · rw [hs] at h; simp at h; simp [h]
 
+/-- A shutdown notice is on its way to the protocol: a task is inside `close_connection` with
+`NotifyProtocol::Yes` and has not sent it yet, or one is in the channel. -/
+def NoticeDue (s : PeerSys) : Bool :=
+  s.tasks.any (fun k => k.phase = .closing true) || decide (s.notices > 0)
+
 structure Inv2 (s : PeerSys) : Prop where
   i1 : Inv1 s
   c : s.connected = slotConn s.slot
@@ -42,7 +49,7 @@ structure Inv2 (s : PeerSys) : Prop where
   hi : s.hsIn.map (·.2) = inbEntry s.slot
   vl : ∀ q, slotVal s.slot = some q → q ∈ s.validations
   wf : slotWf s.slot = true
-  bz : (Busy s || decide (s.notices > 0)) = true → idle s.slot = true
+  bz : NoticeDue s = true → idle s.slot = true
   nb : UEv.bug ∉ s.log
   lg : lfold s.log = some (owes s.slot)
   ac : afold s.log = some (accOf s.slot s.hsIn)
@@ -222,20 +229,55 @@ theorem not_validating_of_idle {slot : Slot} (h : idle slot = true) : isValidati
 theorem pendOf_connClosed (slot : Slot) (l : Bool) : pendOf (handle slot .connClosed).1 l = [] := by
   simp [pendOf, slotSid_connClosed]
 
+/-- Handler outputs never move a task out of `running`. -/
+theorem run_fold (outs : List Out) : ∀ (ts : List Task) (lg : List UEv),
+    (∀ k ∈ ts, k.phase = .running) → ∀ k ∈ (outs.foldl tlF (ts, lg)).1, k.phase = .running := by
+  induction outs with
+  | nil => intro ts lg h; exact h
+  | cons o r ih =>
+    intro ts lg h
+    rw [List.foldl_cons]
+    cases o
+    case shutdown t =>
+      refine ih _ _ ?_
+      intro k hk
+      simp only [signalTask, List.mem_map] at hk
+      obtain ⟨k0, hk0, rfl⟩ := hk
+      have := h k0 hk0
+      split <;> simpa using this
+    case spawn t pi po =>
+      refine ih _ _ ?_
+      intro k hk
+      simp only [List.mem_append, List.mem_singleton] at hk
+      rcases hk with hk | rfl
+      · exact h k hk
+      · rfl
+    all_goals exact ih _ _ h
+
+/-- Without an `opened` among the outputs the new user events do not depend on the tasks. -/
+theorem tl_quiet (outs : List Out) : ∀ (ts ts' : List Task) (lg : List UEv), quietOuts outs = true →
+    (outs.foldl tlF (ts, lg)).2 = (outs.foldl tlF (ts', lg)).2 := by
+  induction outs with
+  | nil => intro ts ts' lg _; rfl
+  | cons o r ih =>
+    intro ts ts' lg hq
+    simp only [quietOuts, List.all_cons, Bool.and_eq_true] at hq
+    have hr : quietOuts r = true := hq.2
+    rw [List.foldl_cons, List.foldl_cons]
+    cases o
+    case opened d hs t => simp at hq
+    all_goals exact ih _ _ _ hr
+
+theorem newEvs_quiet (outs : List Out) (hq : quietOuts outs = true) (ts ts' : List Task) :
+    newEvs ts outs = newEvs ts' outs := tl_quiet outs ts ts' [] hq
+
 theorem handler_inv2 {s s1 s2 : PeerSys} {ev : Ev} (h : Inv2 s) (hi1 : Inv1 s2)
     (hpre : Pre s.slot (liveOf s) ev = true)
-    (hbz : (Busy s || decide (s.notices > 0)) = true → isNotice ev = true)
+    (hbz : (InClose s || decide (s.notices > 0)) = true → isNotice ev = true)
+    (hq : (isValidating s.slot = true → s.tasks = []) ∨ quietOuts (handle s.slot ev).2 = true)
     (hpipe : ∀ p, evPipe ev = some p → s.hsIn.map (·.1) = some p)
     (B : Before s s1 ev) (A : After (runHandler s1 ev) s2 ev) : Inv2 s2 := by
   have hslot : s2.slot = (handle s.slot ev).1 := by rw [A.slot, rh_slot, B.slot]
-  have hvt : isValidating s.slot = true → s.tasks = [] := by
-    intro hv
-    by_cases hb : (Busy s || decide (s.notices > 0)) = true
-    · have := not_validating_of_idle (h.bz hb); rw [hv] at this; cases this
-    · simp only [Bool.or_eq_true, not_or, Bool.not_eq_true] at hb
-      rcases inv_cases h.i1 hb.1 with h0 | ⟨k, _, hk⟩
-      · exact h0
-      · rw [hk] at hv; simp [isValidating] at hv
   have hlog : s2.log = (if takesUp s.slot (handle s.slot ev) = true then s.log ++ [.request] else s.log) ++
       newEvs s.tasks (handle s.slot ev).2 := by
     rw [A.log, rh_log, B.slot, B.log, B.tasks]
@@ -276,44 +318,33 @@ theorem handler_inv2 {s s1 s2 : PeerSys} {ev : Ev} (h : Inv2 s) (hi1 : Inv1 s2)
       exact val_pure _ _ _ hpre _ h.vl
   · -- well-formed
     rw [hslot]; exact wf_pure _ _ _ hpre h.wf
-  · -- closing tasks
+  · -- a notice is due
     intro hb2
     rw [hslot]
-    by_cases hb : (Busy s || decide (s.notices > 0)) = true
-    · have : ev = .notice := by
-        have := hbz hb
-        cases ev <;> simp_all [isNotice]
+    by_cases hn : isNotice ev = true
+    · have : ev = .notice := by cases ev <;> simp_all [isNotice]
       subst this
-      exact idle_notice _ (h.bz hb)
-    · simp only [Bool.or_eq_true, not_or, Bool.not_eq_true, decide_eq_true_eq] at hb
+      exact idle_notice _ (by simpa [Pre] using hpre)
+    · -- not the notice: no task was inside `close_connection` and the channel was empty; still so afterwards
+      exfalso
+      have hb : ¬ (InClose s || decide (s.notices > 0)) = true := fun hc => hn (hbz hc)
+      simp only [Bool.or_eq_true, not_or, Bool.not_eq_true, decide_eq_true_eq] at hb
       have hn2 : s2.notices = 0 := by
         have := B.notices
         rw [A.notices, rh_notices]; omega
-      have hbusy2 : Busy s2 = true := by
-        simp only [Bool.or_eq_true, decide_eq_true_eq] at hb2
-        rcases hb2 with hb2 | hb2
-        · exact hb2
-        · omega
-      have hcalm : ∀ k ∈ s.tasks, k.phase = .running ∧ k.signalled = false := by
+      have hrun : ∀ k ∈ s.tasks, k.phase = .running := by
         intro k hk
         have := hb.1
-        simp only [Busy, List.any_eq_false] at this
-        have := this k hk
-        simp only [Bool.or_eq_true, not_or, ne_eq, decide_eq_true_eq, Bool.not_eq_true,
-          Decidable.not_not] at this
-        simpa using this
-      by_cases hsd : ∃ t, Out.shutdown t ∈ (handle s.slot ev).2
-      · obtain ⟨t, ht⟩ := hsd
-        exact idle_pure _ _ _ hpre t ht
-      · exfalso
-        have hcalm2 := calm_fold (handle s.slot ev).2 s.tasks [] hcalm (fun t ht => hsd ⟨t, ht⟩)
-        have ht2 : s2.tasks = ((handle s.slot ev).2.foldl tlF (s.tasks, [])).1 := by
-          rw [A.tasks, rh_tasks _ _ [], B.slot, B.tasks]
-        rw [← ht2] at hcalm2
-        simp only [Busy, List.any_eq_true] at hbusy2
-        obtain ⟨k, hk, hk2⟩ := hbusy2
-        have := hcalm2 k hk
-        simp [this.1, this.2] at hk2
+        simp only [InClose, List.any_eq_false] at this
+        simpa using this k hk
+      have hrun2 := run_fold (handle s.slot ev).2 s.tasks [] hrun
+      have ht2 : s2.tasks = ((handle s.slot ev).2.foldl tlF (s.tasks, [])).1 := by
+        rw [A.tasks, rh_tasks _ _ [], B.slot, B.tasks]
+      rw [← ht2] at hrun2
+      simp only [NoticeDue, Bool.or_eq_true, List.any_eq_true, decide_eq_true_eq] at hb2
+      rcases hb2 with ⟨k, hk, hk2⟩ | hb2
+      · rw [hrun2 k hk] at hk2; cases hk2
+      · omega
   · -- no bug
     rw [hlog]
     intro hbug
@@ -335,12 +366,19 @@ theorem handler_inv2 {s s1 s2 : PeerSys} {ev : Ev} (h : Inv2 s) (hi1 : Inv1 s2)
     · rw [lfold_append, h.lg]; rfl
     · exact h.lg
   · -- acceptance ledger
-    rw [hlog, afold_append, hslot, A.hsIn, rh_hsIn, B.slot, B.hsIn,
-      ← acc_pure _ _ _ hpre h.wf s.tasks hvt s.hsIn h.hi hpipe]
-    congr 1
-    split
-    · rw [afold_append, h.ac]; rfl
-    · exact h.ac
+    rcases hq with hvt | hq
+    · rw [hlog, afold_append, hslot, A.hsIn, rh_hsIn, B.slot, B.hsIn,
+        ← acc_pure _ _ _ hpre h.wf s.tasks hvt s.hsIn h.hi hpipe]
+      congr 1
+      split
+      · rw [afold_append, h.ac]; rfl
+      · exact h.ac
+    · rw [hlog, newEvs_quiet _ hq s.tasks [], afold_append, hslot, A.hsIn, rh_hsIn, B.slot, B.hsIn,
+        ← acc_pure _ _ _ hpre h.wf [] (fun _ => rfl) s.hsIn h.hi hpipe]
+      congr 1
+      split
+      · rw [afold_append, h.ac]; rfl
+      · exact h.ac
 
 -- ------------------------------------------------------------------ all steps
 
@@ -393,7 +431,7 @@ theorem pre_of {s s1 : PeerSys} {ev : Ev} {a : Act} (h : Inv2 s) (he : enabled s
     simp only [Pre]
     apply hbz
     simp only [enabled, decide_eq_true_eq] at he
-    simp [he]
+    simp [NoticeDue, he]
   case timer => obtain ⟨-, rfl⟩ := hev; rfl
   case validation p acc ok sid => obtain ⟨-, rfl⟩ := hev; rfl
   case cmdOpen sd dk ok sid =>
@@ -488,35 +526,75 @@ theorem pipe_of {s s1 : PeerSys} {ev : Ev} {a : Act} (hev : evOf s a = some (s1,
     intro q hq; simp [evPipe] at hq
 
 theorem notice_of {s s1 : PeerSys} {ev : Ev} {a : Act} (hp : prompt s a = true)
-    (hev : evOf s a = some (s1, ev)) : (Busy s || decide (s.notices > 0)) = true → isNotice ev = true := by
+    (hev : evOf s a = some (s1, ev)) : (InClose s || decide (s.notices > 0)) = true → isNotice ev = true := by
   intro hb
   simp only [prompt, hb, if_true] at hp
   cases a <;> simp [Act.isTask] at hp <;> simp [evOf] at hev
   obtain ⟨-, rfl⟩ := hev
   rfl
 
+theorem any_setPhase_closing {t : Tid} {ph : TaskPhase} (hph : ph ≠ .closing true) (ts : List Task)
+    (h : (setPhase t ph ts).any (fun k => k.phase = .closing true) = true) :
+    ts.any (fun k => k.phase = .closing true) = true := by
+  simp only [setPhase, List.any_map, List.any_eq_true, Function.comp, decide_eq_true_eq] at h ⊢
+  obtain ⟨k, hk, hk2⟩ := h
+  refine ⟨k, hk, ?_⟩
+  by_cases hid : k.id = t
+  · simp [hid] at hk2; exact absurd hk2 hph
+  · simpa [hid] using hk2
+
 /-- A task step leaves everything but the tasks, the notice count and the log (a `closed` report) alone. -/
 theorem task_inv2 {s : PeerSys} {a : Act} (h : Inv2 s) (hi1 : Inv1 (taskStep s a)) (he : enabled s a = true)
     (ht : a.isTask = true) : Inv2 (taskStep s a) := by
-  have hidle : idle s.slot = true := by
-    by_cases hb : (Busy s || decide (s.notices > 0)) = true
-    · exact h.bz hb
-    · simp only [Bool.or_eq_true, not_or, Bool.not_eq_true] at hb
-      rcases inv_cases h.i1 hb.1 with h0 | ⟨k, _, hk⟩
-      · cases a <;> simp [Act.isTask] at ht <;> simp [enabled, hasTask, h0] at he
-      · rw [hk]; rfl
   cases a <;> simp [Act.isTask] at ht
   case taskSeesSignal t =>
-    exact ⟨hi1, h.c, h.rq, h.pd, h.ho, h.hi, h.vl, h.wf, fun _ => hidle, h.nb, h.lg, h.ac⟩
+    refine ⟨hi1, h.c, h.rq, h.pd, h.ho, h.hi, h.vl, h.wf, ?_, h.nb, h.lg, h.ac⟩
+    intro hd
+    apply h.bz
+    simp only [taskStep, NoticeDue, Bool.or_eq_true] at hd ⊢
+    rcases hd with hd | hd
+    · exact .inl (any_setPhase_closing (by simp) _ hd)
+    · exact .inr hd
   case taskSeesClose t =>
-    exact ⟨hi1, h.c, h.rq, h.pd, h.ho, h.hi, h.vl, h.wf, fun _ => hidle, h.nb, h.lg, h.ac⟩
+    refine ⟨hi1, h.c, h.rq, h.pd, h.ho, h.hi, h.vl, h.wf, ?_, h.nb, h.lg, h.ac⟩
+    intro _
+    -- the task was running and had not been signalled: its stream is the open one
+    simp only [enabled, hasTask, List.any_eq_true, Bool.and_eq_true, decide_eq_true_eq,
+      Bool.not_eq_true'] at he
+    obtain ⟨k, hk, -, hrun, hns⟩ := he
+    have := h.i1.run k hk hrun hns
+    show idle s.slot = true
+    rw [this]; rfl
   case taskNotice t =>
-    exact ⟨hi1, h.c, h.rq, h.pd, h.ho, h.hi, h.vl, h.wf, fun _ => hidle, h.nb, h.lg, h.ac⟩
+    refine ⟨hi1, h.c, h.rq, h.pd, h.ho, h.hi, h.vl, h.wf, ?_, h.nb, h.lg, h.ac⟩
+    intro hd
+    apply h.bz
+    simp only [taskStep, NoticeDue, Bool.or_eq_true, decide_eq_true_eq] at hd ⊢
+    rcases hd with hd | hd
+    · exact .inl (any_setPhase_closing (by simp) _ hd)
+    · by_cases hn : (s.tasks.any fun k => k.id = t ∧ k.phase = .closing true) = true
+      · left
+        simp only [List.any_eq_true, decide_eq_true_eq] at hn ⊢
+        obtain ⟨k, hk, -, hk2⟩ := hn
+        exact ⟨k, hk, hk2⟩
+      · right
+        simp only [hn] at hd
+        simpa using hd
   case taskReport t =>
-    refine ⟨hi1, h.c, h.rq, h.pd, h.ho, h.hi, h.vl, h.wf, fun _ => hidle, ?_, ?_, ?_⟩
+    refine ⟨hi1, h.c, h.rq, h.pd, h.ho, h.hi, h.vl, h.wf, ?_, ?_, ?_, ?_⟩
+    · intro hd
+      apply h.bz
+      simp only [taskStep, NoticeDue, Bool.or_eq_true, List.any_eq_true, decide_eq_true_eq] at hd ⊢
+      rcases hd with ⟨k, hk, hk2⟩ | hd
+      · exact .inl ⟨k, (List.mem_filter.mp hk).1, hk2⟩
+      · exact .inr (by simpa using hd)
     · simp only [taskStep, List.mem_append, List.mem_singleton, reduceCtorEq, or_false]; exact h.nb
     · simp only [taskStep]; rw [lfold_append, h.lg]; cases owes s.slot <;> rfl
     · simp only [taskStep]; rw [afold_append, h.ac]; cases accOf s.slot s.hsIn <;> rfl
+
+theorem not_task_of_evOf {s s1 : PeerSys} {a : Act} {ev : Ev} (hev : evOf s a = some (s1, ev)) :
+    a.isTask = false := by
+  cases a <;> simp [evOf] at hev <;> rfl
 
 theorem inv2_step {s : PeerSys} (a : Act) (h : Inv2 s) (he : enabled s a = true) (hp : prompt s a = true) :
     Inv2 (step s a) := by
@@ -532,11 +610,32 @@ theorem inv2_step {s : PeerSys} (a : Act) (h : Inv2 s) (he : enabled s a = true)
       cases d <;> simp_all [enabled]
   · have hst : step s a = post (runHandler s1 ev) a := by simp only [step, hev]
     rw [hst] at hi1 ⊢
-    exact handler_inv2 h hi1 (pre_of h he hev) (notice_of hp hev) (pipe_of hev) (before_of h he hev)
-      (after_of _ hev)
+    have hpre := pre_of h he hev
+    have hB := before_of h he hev
+    have hq : (isValidating s.slot = true → s.tasks = []) ∨ quietOuts (handle s.slot ev).2 = true := by
+      by_cases hb1 : (InClose s || decide (s.notices > 0)) = true
+      · left
+        intro hv
+        have hn := notice_of hp hev hb1
+        have : ev = .notice := by cases ev <;> simp_all [isNotice]
+        subst this
+        have := not_validating_of_idle (slot := s.slot) (by simpa [Pre] using hpre)
+        rw [hv] at this; cases this
+      · by_cases hb : Busy s = true
+        · right
+          simp only [prompt, hb1, hb, if_true, not_task_of_evOf hev] at hp
+          have : quietAct s a = true := by simpa using hp
+          simpa only [quietAct, outsOf, hev, hB.slot] using this
+        · left
+          intro hv
+          rcases inv_cases h.i1 (by simpa using hb) with h0 | ⟨k, _, hk⟩
+          · exact h0
+          · rw [hk] at hv; simp [isValidating] at hv
+    exact handler_inv2 h hi1 hpre (notice_of hp hev) hq (pipe_of hev) hB (after_of _ hev)
 
 theorem inv2_init : Inv2 {} :=
-  ⟨⟨rfl, by simp, by intro k hk; simp at hk⟩, rfl, rfl, rfl, rfl, rfl, by intro q hq; simp [slotVal] at hq, rfl,
+  ⟨⟨rfl, by simp, by intro k hk; simp at hk, by intro k hk; simp at hk⟩, rfl, rfl, rfl, rfl, rfl,
+    by intro q hq; simp [slotVal] at hq, rfl,
     by intro _; rfl, by simp, rfl, rfl⟩
 
 theorem inv2_reach {s : PeerSys} (h : ReachP s) : Inv2 s := by
